@@ -45,15 +45,17 @@ start = s.index("## 13. Seeded changes and which checks catch them")
 end = s.index("## Appendix A")
 intro = '''## 13. Seeded changes and which checks catch them
 
-Five rounds of independent sub-agents (one per claimed property and round)
+Six rounds of independent sub-agents (one per claimed property and round)
 were given only the text of one property and a private scratch worktree, and
 asked for two changes each that break the property, keep the pinned suite green
-and need something specific to manifest; rounds two to five were steered
+and need something specific to manifest; rounds two to six were steered
 towards state left by earlier calls, failures at interior points, unspecified
 behaviour of dependencies and cooperating edits, and were told which ideas were
 already taken (variants A/B = round 1, C/D = round 2, E/F = round 3,
 G/H = round 4, I/J = round 5; round 5 was pointed at shared infrastructure:
-`align.py`, `dispatch.py`, `clean.py`, `baseclass.py`, `utils/`). Every change was confirmed by
+`align.py`, `dispatch.py`, `clean.py`, `baseclass.py`, `utils/`; K/L = round 6,
+pointed at the process-wide environment, unusual-but-legal object structure and
+aliasing). Every change was confirmed by
 `tools/confirm_seeds.sh` in a scratch worktree (patch applies; no newly
 failing test; the agent's demo fails with the change and passes without) before
 it was filed under `/verif/seeded/<id>/` (`patch.diff`, `demo.py`, `notes.md`
@@ -134,6 +136,20 @@ compare-again after an in-place update; C11-I/J to the method spelling, keyword
 primers, transposed views and `order=`; C15-J to single-string names; C16-J to
 exponents beyond one byte; C20-J to a partial-evaluation stage with merging
 terms.
+Round six (13 of 22 missed at first): C13-L and C11-K (an `assert` with a side
+effect) to runs executed in a fresh `python -O` interpreter; C13-K to the
+"try again" errnos among the write faults; C07-K to signed-against-unsigned
+64-bit operands, C07-L (options moved into a context variable) to comparisons
+evaluated by a worker thread started while the options are in force; C12-K to
+byte-swapped requested dtypes, C12-L to operands holding neighbouring floats;
+C17-K/L to catalogue entries that hand arrays straight to the constructors and
+index utilities; C19-L to overwriting what the queries returned and asking
+again; C11-L to numpy's invalid/divide error state with same-signed infinities;
+C16-K to arbitrary 53-bit doubles and an exact sympy round trip; C18-L to a
+fixed fill pattern for fresh memory and the largest expansions; C20-K to
+journeys under the retain options and column-major exponent matrices; C15-K/L
+to evaluating a cancelled-to-constant polynomial with arrays and to
+`symbols()` of a single name.
 
 '''
 s = s[:start] + intro + table + "\n\n---------------------------------------------------------------------------\n\n" + s[end:]
